@@ -39,7 +39,7 @@ def apply_edit(d, m):
     path = os.path.join(d, m["file"])
     s = open(path).read()
     if s.count(m["old"]) != 1 and not m.get("all"):
-        raise SystemExit(f"{m['id']}: old text occurs {s.count(m['old'])} times in {m['file']}")
+        raise ValueError(f"{m['id']}: old text occurs {s.count(m['old'])} times in {m['file']}")
     s = s.replace(m["old"], m["new"])
     open(path, "w").write(s)
 
@@ -102,7 +102,12 @@ def main():
     for m in todo:
         d = make_copy()
         try:
-            apply_edit(d, m)
+            try:
+                apply_edit(d, m)
+            except ValueError as e:
+                print(f"{m['id']:<14} STALE-MUTATION {e}", flush=True)
+                results.append((m["id"], "-", 0, "stale", False, None, 0))
+                continue
             tests_ok = None
             if a.tests and m.get("tests"):
                 rc, tail = run_tests(d, m["tests"])
